@@ -263,9 +263,14 @@ impl RepoHandle {
     pub fn init(be: MemBackend, hot: Option<MemBackend>, cfg: &ConfigOptions) -> RusticResult<(Self, Repository<OpenStatus>)> {
         let key = MasterKey::new();
         let h = Self { be, hot, key };
-        let repo = Repository::new(&RepositoryOptions::default(), &h.backends())?;
+        let repo = Repository::new(&Self::default_opts(), &h.backends())?;
         let repo = repo.init(&Credentials::Masterkey(h.key.clone()), &KeyOptions::default(), cfg)?;
         Ok((h, repo))
+    }
+    /// Options every harness repository is opened with: NO local cache (`~/.cache/rustic/<repo id>` would be created per
+    /// repository, reads of index / snapshot files would be served from there, repositories with equal ids would share entries).
+    pub fn default_opts() -> RepositoryOptions {
+        RepositoryOptions::default().no_cache(true)
     }
     pub fn open_with(&self, opts: &RepositoryOptions) -> RusticResult<Repository<OpenStatus>> {
         Repository::new(opts, &self.backends())?.open(&Credentials::Masterkey(self.key.clone()))
@@ -273,7 +278,7 @@ impl RepoHandle {
     /// Open again (fresh index, fresh config) — needed between commands: the index of an opened repository is
     /// not refreshed by a backup.
     pub fn open(&self) -> RusticResult<Repository<OpenStatus>> {
-        self.open_with(&RepositoryOptions::default())
+        self.open_with(&Self::default_opts())
     }
 }
 
@@ -281,7 +286,7 @@ impl RepoHandle {
 /// With the default options every opened repository creates `~/.cache/rustic/<repo id>` and index / snapshot reads are
 /// served from there — tampering with the backend is then invisible and the cache directory grows with every case.
 pub fn nocache_opts() -> RepositoryOptions {
-    RepositoryOptions::default().no_cache(true)
+    RepoHandle::default_opts()
 }
 
 impl RepoHandle {
